@@ -14,12 +14,20 @@ fn rebuild_stub() {
         if let Ok(g) = l.try_read() { SEEN_AT_REBUILD.store(vrank(Some(*g)) as usize, VSeq); }
     }
 }
+// Handle::modify finally republishes the maximum level to the `log` crate.  log::set_max_level is replaced by a recording
+// stand-in: the real one WRITES log's private `MAX_LOG_LEVEL_FILTER` (eight zero bytes at start), to which Kani 0.68
+// aliases the constants Level::TRACE / LevelFilter::TRACE (DESIGN.md 0a) - every later use of those constants would
+// read the log level instead.
+vstatic!(LOG_MAX_CALLS: VAtomicUsize = VAtomicUsize::new(0));
+vstatic!(LOG_MAX_AFTER_REBUILDS: VAtomicUsize = VAtomicUsize::new(99));
+fn set_max_level_stub(_l: tracing_log::log::LevelFilter) { LOG_MAX_CALLS.fetch_add(1, VSeq); LOG_MAX_AFTER_REBUILDS.store(REBUILDS.load(VSeq), VSeq); }
 fn any_filter() -> (VLevelFilter, u8) { let k: u8 = nd(); kani::assume(k <= 5); (vfilter_of(k).unwrap(), k) }
 
 #[kani::proof]
 #[kani::unwind(4)]
 #[kani::stub(core::fmt::Formatter::pad, pad_stub)]
 #[kani::stub(tracing_core::callsite::rebuild_interest_cache, rebuild_stub)]
+#[kani::stub(tracing_log::log::set_max_level, set_max_level_stub)]
 fn c12_gone_handle_reports_error_and_does_nothing() {
     let (old, _) = any_filter(); let (new, _) = any_filter();
     let (layer, handle) = Subscriber::new(old);
@@ -27,7 +35,7 @@ fn c12_gone_handle_reports_error_and_does_nothing() {
     let mut ran = false;
     let r = handle.modify(|v| { ran = true; *v = new; });
     assert!(r.is_err() && r.unwrap_err().is_dropped(), "C12.modify.collector_gone_is_an_error");
-    assert!(!ran && REBUILDS.load(VSeq) == 0, "C12.modify.collector_gone_has_no_effect");
+    assert!(!ran && REBUILDS.load(VSeq) == 0 && LOG_MAX_CALLS.load(VSeq) == 0, "C12.modify.collector_gone_has_no_effect");
     assert!(handle.reload(new).is_err() && handle.clone_current().is_none() && handle.with_current(|_| ()).is_err(), "C12.handle.every_operation_errors_once_gone");
 }
 
@@ -35,6 +43,7 @@ fn c12_gone_handle_reports_error_and_does_nothing() {
 #[kani::unwind(4)]
 #[kani::stub(core::fmt::Formatter::pad, pad_stub)]
 #[kani::stub(tracing_core::callsite::rebuild_interest_cache, rebuild_stub)]
+#[kani::stub(tracing_log::log::set_max_level, set_max_level_stub)]
 fn c12_modify_mutates_once_unlocks_then_rebuilds_once() {
     let (old, _) = any_filter(); let (new, rnew) = any_filter();
     let (layer, handle) = Subscriber::new(old);
@@ -45,6 +54,7 @@ fn c12_modify_mutates_once_unlocks_then_rebuilds_once() {
     assert!(r.is_ok(), "C12.modify.ok_while_the_layer_lives");
     assert!(via_reload || runs == 1, "C12.modify.closure_runs_exactly_once");
     assert!(REBUILDS.load(VSeq) == 1, "C12.modify.rebuilds_the_interest_cache_exactly_once");
+    assert!(LOG_MAX_CALLS.load(VSeq) == 1 && LOG_MAX_AFTER_REBUILDS.load(VSeq) == 1, "C12.modify.log_max_level_republished_once_AFTER_the_rebuild");
     assert!(LOCK_WAS_FREE.load(VSeq) == 1, "C12.modify.lock_released_before_the_rebuild");
     assert!(SEEN_AT_REBUILD.load(VSeq) == rnew as usize, "C12.modify.rebuild_already_sees_the_new_value");
     // every later callback of the layer reads the new value (read lock per callback)
@@ -62,6 +72,7 @@ fn c12_modify_mutates_once_unlocks_then_rebuilds_once() {
 #[kani::unwind(4)]
 #[kani::stub(core::fmt::Formatter::pad, pad_stub)]
 #[kani::stub(tracing_core::callsite::rebuild_interest_cache, rebuild_stub)]
+#[kani::stub(tracing_log::log::set_max_level, set_max_level_stub)]
 fn c12_reloaded_filter_is_read_by_every_callback() {
     let old = VFil::any(); let new = VFil::any();
     let (fil, handle) = Subscriber::new(old);
@@ -72,4 +83,28 @@ fn c12_reloaded_filter_is_read_by_every_callback() {
     assert!(subscribe::Filter::<VRoot>::event_enabled(&fil, &ev, &cx) == new.ev_enabled, "C12.filter.event_enabled_is_new");
     assert!(vicode(&subscribe::Filter::<VRoot>::callsite_enabled(&fil, &VMETA)) == new.interest, "C12.filter.callsite_enabled_is_new");
     assert!(vrank(subscribe::Filter::<VRoot>::max_level_hint(&fil)) == new.hint, "C12.filter.hint_is_new");
+}
+
+// the same for a reloadable LAYER whose static interest, dynamic verdict and hint are independent of one another
+// (a LevelFilter answers all three from one number, so a callback that is derived from another one instead of being
+// forwarded would go unnoticed with it)
+#[kani::proof]
+#[kani::unwind(4)]
+#[kani::stub(core::fmt::Formatter::pad, pad_stub)]
+#[kani::stub(tracing_core::callsite::rebuild_interest_cache, rebuild_stub)]
+#[kani::stub(tracing_log::log::set_max_level, set_max_level_stub)]
+fn c12_reloaded_layer_is_read_by_every_callback() {
+    let mk = |i: usize| { let r = VRec { i, global_enabled: nd(), interest: nd(), hint: nd() }; kani::assume(r.interest <= 2 && r.hint <= 6); r };
+    let old = mk(0); let new = mk(1);
+    let (ne, ni, nh) = (new.global_enabled, new.interest, new.hint);
+    let (layer, handle) = Subscriber::new(old);
+    assert!(handle.reload(new).is_ok() && REBUILDS.load(VSeq) == 1, "C12.layer.reload_ok_and_rebuilds");
+    let root = VRoot::empty();
+    assert!(vicode(&crate::Subscribe::<VRoot>::register_callsite(&layer, &VMETA)) == ni, "C12.layer.register_callsite_is_the_new_values_own_answer");
+    assert!(crate::Subscribe::<VRoot>::enabled(&layer, &VMETA, subscribe::Context::__verif_new(&root)) == ne, "C12.layer.enabled_is_the_new_values_own_answer");
+    assert!(vrank(crate::Subscribe::<VRoot>::max_level_hint(&layer)) == nh, "C12.layer.hint_is_the_new_values_own_answer");
+    assert!(vseen(1, VK_REGISTER) == 1 && vseen(1, VK_ENABLED) == 1 && vseen(0, VK_REGISTER) == 0 && vseen(0, VK_ENABLED) == 0, "C12.layer.each_callback_reaches_the_NEW_value_once_and_the_old_one_never");
+    let vs = VMETA.fields().value_set(&[]); let ev = Event::new(&VMETA, &vs);
+    crate::Subscribe::<VRoot>::on_event(&layer, &ev, subscribe::Context::__verif_new(&root));
+    assert!(vseen(1, VK_EVENT) == 1 && vseen(0, VK_EVENT) == 0, "C12.layer.events_reach_the_new_value_only");
 }
